@@ -1,0 +1,109 @@
+// Copyright 2023 The Go Authors. All rights reserved.
+// Use of this source code is governed by a BSD-style
+// license that can be found in the LICENSE file.
+
+//go:build verif && (!goexperiment.jsonv2 || !go1.25)
+
+package json
+
+import "reflect"
+
+// Ghost helpers used by the //@ contract clauses in the zz_verif_*.go files.
+// They are ordinary Go so that contract expressions are type-checked by the
+// Go type checker and can be executed when a counterexample is replayed.
+// (Generated from /verif/contracts/prelude.go.tmpl; identical in every package.)
+
+// old(x) is the value of x when the function was entered.
+func old[T any](x T) T { return x }
+
+// entry(x), in a loop invariant, is the value of x when the loop was entered.
+func entry[T any](x T) T { return x }
+
+// prev(x), in a `loop k step` clause, is the value of x at the start of the
+// current iteration.
+func prev[T any](x T) T { return x }
+
+func implies(a, b bool) bool { return !a || b }
+
+func iff(a, b bool) bool { return a == b }
+
+func ite[T any](c bool, a, b T) T {
+	if c {
+		return a
+	}
+	return b
+}
+
+func vForall(lo, hi int, f func(int) bool) bool {
+	for i := lo; i < hi; i++ {
+		if !f(i) {
+			return false
+		}
+	}
+	return true
+}
+
+func vExists(lo, hi int, f func(int) bool) bool {
+	for i := lo; i < hi; i++ {
+		if f(i) {
+			return true
+		}
+	}
+	return false
+}
+
+// sameOrFresh(res, src): res shares src's backing array from the same start
+// (an in-place append) or is backed by an array allocated during the call.
+// Freshness cannot be observed by executing code; when executed it checks only
+// the first alternative where decidable and otherwise reports true.
+func sameOrFresh[T any](res, src []T) bool { return true }
+
+// freshArray(s): the array backing s was allocated during the call. Not
+// observable by executing code; reports true when executed.
+func freshArray[T any](s []T) bool { return true }
+
+// distinctArrays(a, b): a and b are backed by different arrays (so writing
+// through one, within its capacity, cannot change the other). Not observable
+// in general; when executed it compares the first elements' addresses.
+func distinctArrays[T any](a, b []T) bool {
+	if cap(a) == 0 || cap(b) == 0 {
+		return true
+	}
+	return &a[:1][0] != &b[:1][0]
+}
+
+// sameSlice(a, b): a and b are the same slice header (same array, start, length
+// and capacity).
+func sameSlice[T any](a, b []T) bool {
+	if len(a) != len(b) || cap(a) != cap(b) {
+		return false
+	}
+	return cap(a) == 0 || &a[:1][0] == &b[:1][0]
+}
+
+// sameValue(a, b): a and b are the same value, for types that Go cannot compare
+// with == (structs that hold slices). The verifier compares slice fields as
+// headers; when executed the comparison is by content (weaker).
+func sameValue[T any](a, b T) bool { return reflect.DeepEqual(a, b) }
+
+// unchanged(s), in a postcondition or invariant: the array backing s holds what
+// it held on entry. (Executed: trivially true; the contents are compared through
+// the other clauses.)
+func unchanged[T any](s []T) bool { return true }
+
+// bigc denotes the integer written in decimal in s. It exists for constants
+// that do not fit Go's integer types; contracts using it are math-only (the
+// verifier gives it its mathematical meaning; when executed it saturates).
+func bigc(s string) int {
+	v := 0
+	for i := 0; i < len(s); i++ {
+		if v > (1<<63-1-9)/10 {
+			return 1<<63 - 1
+		}
+		v = v*10 + int(s[i]-'0')
+	}
+	return v
+}
+
+// mathWrap64 is x mod 2^64 (the verifier treats int as unbounded in ghost code).
+func mathWrap64(x int) uint64 { return uint64(x) }
